@@ -1,8 +1,9 @@
 CONSTANTS
-  Families = {"roaring", "pql", "msg"}
+  Families = {"roaring", "pql", "msg", "env"}
   Entries = {"unmarshal", "irb_set_btree", "irb_clear_slice", "frag_open"}
   SrvEntries = {"api_import_set", "api_import_views", "http_import_clear"}
   PqlEntries = {"api_query", "http_query"}
+  EnvEntries = {"api_import_env", "http_import_env"}
   MsgEntries = {"api_msg", "http_msg", "gossip_msg", "gossip_merge"}
   Formats = {"pilosa", "official", "official_runs"}
   Shapes <- ShapesQuick
